@@ -106,7 +106,7 @@ def _work(item):
     if pairs:
         priv = [n for n in names if n.startswith("_")]
         pub = [n for n in names if not n.startswith("_")][:4] + FRESH[:2]
-        for a, b in itertools.permutations(priv + pub, 2):
+        for a, b in itertools.permutations(list(dict.fromkeys(priv + pub)), 2):
             case = {"name": it["name"], "payload": it["payload"],
                     "attempts": [[a, "false"], [b, "zero"]]}
             st.add(case, judge(case))
